@@ -9,7 +9,8 @@ from ..gen import gen_value, NF_CLASSES
 THEOREMS = ["c12_proxy_call_is_the_raw_operation", "c12_histories_agree", "c12_handler_error_surfaces_unchanged"]
 THEOREMS_T = ["c12_translated_exec_proxy_sends_the_raw_request", "c12_translated_migrate_proxy_sends_the_raw_request",
               "c12_translated_downcast_error", "c12_translated_generated_instantiate_options",
-              "c12_translated_generated_instantiate_call", "c12_translated_generated_instantiate2_call"]
+              "c12_translated_generated_instantiate_call", "c12_translated_generated_instantiate2_call",
+              "c12_translated_generated_exec_path", "c12_translated_generated_query_sudo_migrate"]
 
 
 def build(run, thorough):
